@@ -47,8 +47,10 @@ def lit_canon(b):
 
 
 class Gen:
-    def __init__(self, rng, mode="random", max_depth=3, exotic=True):
-        self.r = rng
+    def __init__(self, rng, mode="random", max_depth=3, exotic=True, lay_rng=None):
+        self.r = rng                # structural choices (the document)
+        self.lr = lay_rng or rng    # layout choices (blanks, separators, quote style, numeric spelling)
+        self.split = lay_rng is not None
         self.mode = mode            # random | minimal | maximal
         self.max_depth = max_depth
         self.exotic = exotic        # non-ASCII text in comments / literals, numeric spelling variants
@@ -71,7 +73,7 @@ class Gen:
         return "zz" + str(r.randrange(1000))
 
     def comment_text(self, forbid):
-        r = self.r
+        r = self.lr
         n = r.choice([0, 1, 3, 8, 20])
         pool = ["a", "Z", "0", " ", "\t", "*", "/", "#", "'", '"', "{", "}", "<", ">", "[", "]", "(", ")", ",", ";", ":",
                 "=", "-", ".", "\\", "struct", "include", "//", "/*", "* /", "1:", "true"]
@@ -83,7 +85,7 @@ class Gen:
         return s
 
     def blank_atom(self):
-        r = self.r
+        r = self.lr
         k = r.random()
         if k < 0.55:
             return "".join(r.choice(" \t\r\n") if r.random() < 0.5 else " " for _ in range(r.choice([1, 1, 2, 4])))
@@ -97,7 +99,7 @@ class Gen:
         return "/*" + t + "*/"
 
     def blank_text(self, mandatory):
-        r = self.r
+        r = self.lr
         if self.mode == "minimal":
             return " " if mandatory else ""
         if self.mode == "maximal":
@@ -115,7 +117,7 @@ class Gen:
 
     def sep(self, mandatory=False):
         """optional list separator slot: nothing | ',' | ';'   (followed by an optional blank when present)"""
-        r = self.r
+        r = self.lr
         if mandatory:
             c = r.choice(",;")
         elif self.mode == "minimal":
@@ -130,6 +132,8 @@ class Gen:
         r = self.r
         n = r.choice([0, 0, 1, 2, 5, 12])
         other = "'" if quote == '"' else '"'
+        if self.split:
+            other = "\\n"           # the content must not depend on the quote style chosen by the layout
         pool = ["a", "b", "Z", "0", "9", " ", "_", ".", "/", ":", "=", "{", "}", "<", ">", "[", "]", "(", ")", ",", ";",
                 "#", "*", "//", "/*", "*/", other, "\\n", "\\\\", "\\'", '\\"', "json:", "$", "|", "&", "\t", "\n"]
         if self.exotic:
@@ -139,7 +143,7 @@ class Gen:
     def literal(self):
         """(tokens, canon)"""
         r = self.r
-        q = "'" if self.mode == "minimal" else ('"' if self.mode == "maximal" else r.choice("'\""))
+        q = "'" if self.mode == "minimal" else ('"' if self.mode == "maximal" else self.lr.choice("'\""))
         c = self.literal_content(q)
         return [("lit", q + c + q)], lit_canon(c)
 
@@ -155,7 +159,7 @@ class Gen:
 
     def int_text(self, v):
         """a spelling of the integer v"""
-        r = self.r
+        r = self.lr
         if not self.exotic or self.mode != "random" or r.random() < 0.7:
             return str(v)
         k = r.random()
@@ -330,7 +334,7 @@ class Gen:
         r = self.r
         depth = self.max_depth if depth is None else depth
         attr = r.choice(["required", "optional", "default"])
-        idtxt = str(fid) if (self.mode != "random" or r.random() < 0.9) else "0" * r.choice([1, 3]) + str(fid)
+        idtxt = str(fid) if (self.mode != "random" or self.lr.random() < 0.9) else "0" * self.lr.choice([1, 3]) + str(fid)
         toks = [("num", idtxt)] + self.b() + [("punct", ":")] + self.b()
         if attr != "default":
             toks += [("kw", attr)] + self.b()
